@@ -63,6 +63,7 @@ func main() {
 	par := flag.Int("par", 6, "obligations in flight")
 	known := flag.String("known", "", "known findings json")
 	dump := flag.String("dump", "", "dump SSA of function key and exit")
+	agree := flag.Bool("agree", false, "put every proved obligation to all solvers and report disagreements (thorough tier)")
 	flag.Parse()
 	raw, err := os.ReadFile(*cfgPath)
 	if err != nil {
@@ -78,6 +79,7 @@ func main() {
 	t0 := time.Now()
 	v := NewVerifier()
 	v.skipLabels, v.onlyLabels = cfg.SkipLabels, cfg.OnlyLabels
+	v.agree = *agree
 	if err := v.Load(*repo, cfg.Packages, "verif"); err != nil {
 		fatal("load: %v", err)
 	}
